@@ -293,6 +293,7 @@ type Output struct {
 	Funcs           map[string]int64         `json:"functions_encoded"`
 	Samples         []map[string]interface{} `json:"samples"`
 	Witnesses       []map[string]interface{} `json:"witnesses"`
+	UnsupWitnesses  []map[string]interface{} `json:"unsupported_witnesses"`
 	Workers         int                      `json:"workers"`
 	Solver          string                   `json:"solver"`
 	FastOne         int64                    `json:"domain_decided_one_sided"`
@@ -505,6 +506,9 @@ func runOne(sh *Shared, ws []*Worker, sp RunSpec, solverS string) Output {
 	o.Funcs = funcs
 	for _, wt := range ex.witnesses {
 		o.Witnesses = append(o.Witnesses, map[string]interface{}{"nondet": wt.Witness, "digest": wt.Digest})
+	}
+	for _, wt := range ex.unsupWitnesses {
+		o.UnsupWitnesses = append(o.UnsupWitnesses, map[string]interface{}{"nondet": wt.Witness, "reason": wt.Label})
 	}
 	o.Wall = time.Since(t0).Seconds()
 	fmt.Fprintf(os.Stderr, "gosym: %s%v paths=%d outcomes=%v violations=%d unsupported=%d sat=%d unsat=%d solver=%.1fs wall=%.1fs complete=%v\n",
